@@ -29,6 +29,11 @@ func init() {
 			"NOT decided: wall-clock slack; a transport Write that blocks; recovery of the next exchange after a stall (value-level).",
 		Assumptions: []string{"context and timer semantics of the standard library", "Channel.Read is non-blocking (it polls the queue), which is checked under C20/non-blocking-empty"},
 		Mutants: []Mutant{
+			{ID: "C05-priv-class-printed-not-wrapped", Desc: "SendCommand prints the privilege sentinel with %s and wraps the cause instead", Rule: "C05/error-classes",
+				Edits: []Edit{{File: "driver/network/sendcommand.go", Old: "\t\t\t\t\"%w: failed acquiring default desired privilege level\",\n\t\t\t\tutil.ErrPrivilegeError,\n", New: "\t\t\t\t\"%s: failed acquiring default desired privilege level: %w\",\n\t\t\t\tutil.ErrPrivilegeError,\n\t\t\t\terr,\n"}}},
+			{ID: "C05-prompt-wait-backoff", Desc: "ReadUntilPrompt doubles its idle sleep up to a second", Rule: "C05/poll-interval",
+				Edits: []Edit{{File: "channel/read.go", Old: "func (c *Channel) ReadUntilPrompt(ctx context.Context) ([]byte, error) {\n\tvar rb []byte\n", New: "func (c *Channel) ReadUntilPrompt(ctx context.Context) ([]byte, error) {\n\tvar rb []byte\n\n\tidle := c.ReadDelay\n"},
+					{File: "channel/read.go", Old: "\t\tif nb == nil {\n\t\t\ttime.Sleep(c.ReadDelay)\n\n\t\t\tcontinue\n\t\t}\n\n\t\trb = append(rb, nb...)\n\n\t\tif c.PromptPattern.Match(processReadBuf(rb, c.PromptSearchDepth)) {", New: "\t\tif nb == nil {\n\t\t\ttime.Sleep(idle)\n\n\t\t\tif idle < time.Second {\n\t\t\t\tidle *= 2\n\t\t\t}\n\n\t\t\tcontinue\n\t\t}\n\n\t\trb = append(rb, nb...)\n\n\t\tif c.PromptPattern.Match(processReadBuf(rb, c.PromptSearchDepth)) {"}}},
 			{ID: "C05-subscription-zero-options", Desc: "reverse of the fix: establish-subscription sent with zero-value operation options", Rule: "C05/operation-constructed",
 				Edits: []Edit{{File: "driver/netconf/subscription.go", Old: "\tr, err := d.sendRPC(m, op)\n", New: "\t_ = op\n\n\tr, err := d.sendRPC(m, &OperationOptions{})\n"}}},
 			{ID: "C05-no-ctx-case", Desc: "ctx.Done case removed from ReadUntilExplicit", Rule: "C05/loops-cancellable",
